@@ -1265,6 +1265,8 @@ theorem config_h_error (c : Config α) {v : Nat} {st : List α} {k : ErrKind}
   · cases h; exact Or.inl rfl
   · split at h
     · cases h; exact Or.inr (Or.inr (Or.inr (Or.inr rfl)))
+    split at h
+    · cases h; exact Or.inr (Or.inr (Or.inr (Or.inr rfl)))
     · split at h
       · cases h; exact Or.inr (Or.inr (Or.inr (Or.inl rfl)))
       · cases h
